@@ -5,13 +5,24 @@ a bit-identical deep copy (used for the copy differential) and a replay needs on
 from `numpy.random.default_rng` seeded with Hypothesis-drawn integers (DESIGN 1.3: allowed, merely shrinks poorly);
 for purity checks the actual coordinates do not matter, the entry points / parameters / order of calls do.
 
-Valid-input domain (by construction, cf. DESIGN 1.4 / 3):
-  * type ids exactly 1..K, all present, identical in every frame; same N and box in every frame
+Valid-input domain of the ORDINARY worlds (variant "plain"; by construction, cf. DESIGN 1.4 / 3):
+  * type ids exactly 1..K (K 1..5), all present, identical in every frame; same N and box in every frame
   * no coincident particles (jittered sub-lattice, min distance >= 0.4 lattice spacing in frame 0)
   * box edges / origins are multiples of 1/8, so "centred" and "sumzero" boxes have bounds summing to exactly 0.0
   * synthetic neighbour / weight files in the library format (`id cn neighborlist`, 1-based ids), every particle has
     1..4 neighbours, never itself; weights positive
   * unit vectors for the nematic input; float (not int) parameter matrices; cut-offs below half the shortest edge
+
+Unusual-but-accepted worlds (VARIANTS other than "plain"; "off-domain": purity is promised for ANY call, values are not):
+  lab-gap     species labels 1..K-1, K+1   ({2} / {1,3} / {1,2,4} / ...: a dump of a sub-set of the species)
+  lab-shift   species labels 2..K+1        ({2} / {2,3} / {2,3,4} / ...)
+  lab-zero    species labels 0..K-1        ({0} / {0,1} / ...: 0-based type ids as HOOMD writes them)
+  perm-types  the type array is permuted from frame to frame (swap Monte Carlo), composition fixed
+  int32-types particle_type is int32 instead of the readers' int64
+  noncontig   positions are non-contiguous views (every second column of a wider array) instead of C-contiguous arrays
+  logtimes    three frames at t0, t0+s, t0+3s (logarithmic dumps: the non-linear branch of the time correlations)
+In the label variants the per-species parameter tables have one row per LAMMPS type up to the largest label (KP rows),
+which is what a user analysing a dump of a sub-set of species passes; dict arguments have every label as a key.
 """
 from __future__ import annotations
 
@@ -25,6 +36,18 @@ from ..gen import snapshot_from
 from ..harness import Violation
 
 ORIGINS = ("zero", "centred", "sumzero", "arbitrary")
+VARIANTS = ("plain", "lab-gap", "lab-shift", "lab-zero", "perm-types", "int32-types", "noncontig", "logtimes")
+
+
+def labels_for(variant, K):
+    """Species labels of a world, ascending."""
+    if variant == "lab-gap":
+        return list(range(1, K)) + [K + 1]
+    if variant == "lab-shift":
+        return list(range(2, K + 2))
+    if variant == "lab-zero":
+        return list(range(0, K))
+    return list(range(1, K + 1))
 
 
 # ============================================================================= comparison helpers
@@ -134,6 +157,53 @@ def same(a, b, path="result"):
     return None if ok else f"{path}: {a!r:.80} vs {b!r:.80}"
 
 
+def detach(x):
+    """Deep, detached copy of a result structure (arrays / DataFrames copied, containers rebuilt): what the caller saw
+    when the call returned."""
+    if isinstance(x, (pd.DataFrame, pd.Series)):
+        return x.copy(deep=True)
+    if isinstance(x, np.ndarray):
+        if x.dtype == object:
+            out = np.empty(x.shape, dtype=object)
+            out.ravel()[:] = [detach(v) for v in x.ravel().tolist()]
+            return out
+        return np.array(x, copy=True)
+    if isinstance(x, dict):
+        return {k: detach(v) for k, v in x.items()}
+    if isinstance(x, (list, tuple)):
+        return type(x)(detach(v) for v in x)
+    return x
+
+
+def fingerprint(x):
+    """Cheap exact fingerprint of a result structure (bytes of every array / DataFrame leaf): equal fingerprints <=> nothing
+    changed; on a mismatch `same` decides (and words the message)."""
+    if isinstance(x, np.ndarray):
+        if x.dtype == object:
+            return ("o", tuple(fingerprint(v) for v in x.ravel().tolist()))
+        return (x.dtype.str, x.shape, x.tobytes())
+    if isinstance(x, pd.DataFrame):
+        v = x.to_numpy()
+        return ("df", tuple(str(c) for c in x.columns), fingerprint(v) if v.dtype != object else repr(x.values.tolist()))
+    if isinstance(x, pd.Series):
+        return ("s", fingerprint(x.to_numpy()))
+    if isinstance(x, dict):
+        return ("d", tuple((repr(k), fingerprint(v)) for k, v in x.items()))
+    if isinstance(x, (list, tuple)):
+        return (type(x).__name__, tuple(fingerprint(v) for v in x))
+    return repr(x)
+
+
+def has_arrays(x):
+    if isinstance(x, (pd.DataFrame, pd.Series, np.ndarray)):
+        return True
+    if isinstance(x, dict):
+        return any(has_arrays(v) for v in x.values())
+    if isinstance(x, (list, tuple)):
+        return any(has_arrays(v) for v in x)
+    return False
+
+
 _NUM = re.compile(r"^[+-]?(\d+)(\.(\d*))?([eE]([+-]?\d+))?$|^[+-]?(\.(\d+))([eE]([+-]?\d+))?$")
 
 
@@ -222,12 +292,18 @@ def need_file(path, what):
 class World:
     """Everything the analyses of one history share."""
 
-    def __init__(self, seed, d, N, T, K, origin, cell, root, like=None):
+    def __init__(self, seed, d, N, T, K, origin, cell, root, like=None, variant="plain"):
         """`like`: another world of the same (d, N, T, K, origin, cell) whose time steps are taken over, so that the new
         world can be written INTO the array objects of `like` (mutate_to) -- time steps are plain ints of a frozen
         dataclass and cannot be overwritten in place."""
-        self.kw = dict(seed=seed, d=d, N=N, T=T, K=K, origin=origin, cell=cell)
+        self.kw = dict(seed=seed, d=d, N=N, T=T, K=K, origin=origin, cell=cell, variant=variant)
         self.d, self.N, self.T, self.K, self.origin, self.cellkind = d, N, T, K, origin, cell
+        if variant not in VARIANTS:
+            raise ValueError(f"harness: unknown world variant {variant!r}")
+        self.variant = variant
+        self.tolerant = variant != "plain"  # off-domain: a refusal (exception) of the library is not a violation
+        self.labels = labels_for(variant, K)
+        KP = self.KP = max(K, max(self.labels))  # rows of the per-species parameter tables
         self.root = root
         os.makedirs(root, exist_ok=True)
         rng = np.random.default_rng([int(seed), d, N, T, K, ORIGINS.index(origin), int(cell == "tri")])
@@ -273,16 +349,38 @@ class World:
             xw.append(lo + (f - np.floor(f)) @ H)
         t = list(range(1, K + 1)) + list(rng.integers(1, K + 1, size=N - K))
         types = np.array(t, dtype=int)[rng.permutation(N)]
+        types = np.array(self.labels, dtype=int)[types - 1]  # canonical 1..K -> the labels of this world
         t0 = int(rng.integers(0, 5000))
         self.step = int(rng.choice([50, 100, 1000]))
         if like is not None:
             t0, self.step = like.timesteps[0], like.step
-        self.timesteps = [t0 + k * self.step for k in range(T)]
+        mult = [0, 1, 3, 7] if variant == "logtimes" else list(range(T))
+        self.timesteps = [t0 + mult[k] * self.step for k in range(T)]
         self.dt = 0.002
-        from PyMatterSim.reader.reader_utils import Snapshots
+        # per-frame type arrays: identical unless the variant permutes them (composition fixed)
+        frame_types = [types]
+        for _ in range(T - 1):
+            frame_types.append(types[np.random.default_rng([int(seed), 77, len(frame_types)]).permutation(N)]
+                               if variant == "perm-types" else types)
+        tdtype = np.int32 if variant == "int32-types" else int
+        from PyMatterSim.reader.reader_utils import SingleSnapshot, Snapshots
 
         def mk(frames):
-            sn = [snapshot_from(cellrec, p, types, ts) for p, ts in zip(frames, self.timesteps)]
+            sn = []
+            for p, ts, ty in zip(frames, self.timesteps, frame_types):
+                one = snapshot_from(cellrec, p, ty, ts)
+                if variant in ("int32-types", "noncontig"):
+                    pos = one.positions
+                    if variant == "noncontig":
+                        wide = np.zeros((N, 2 * pos.shape[1]))
+                        wide[:, 1::2] = -1.0
+                        pos = wide[:, ::2]
+                        pos[...] = one.positions
+                    one = SingleSnapshot(timestep=one.timestep, nparticle=one.nparticle,
+                                         particle_type=np.array(one.particle_type, dtype=tdtype), positions=pos,
+                                         boxlength=one.boxlength, boxbounds=one.boxbounds, realbounds=one.realbounds,
+                                         hmatrix=one.hmatrix)
+                sn.append(one)
             return Snapshots(nsnapshots=len(sn), snapshots=sn)
 
         self.snaps = {"x": mk(xw), "xu": mk(xu)}
@@ -313,15 +411,18 @@ class World:
         qv[6] = qv[2][::-1] if d == 2 else np.roll(qv[2], 1)  # same |n| as row 2 (shared |q| for cubic boxes)
         A["qvec"] = qv.astype(np.int32)
         A["ngrids"] = np.array([3, 4] if d == 2 else [3, 2, 4], dtype=int)
-        A["rcut_mat"] = self.Lmin * rng.uniform(0.3, 0.45, size=(K, K))
-        A["s2sig"] = rng.uniform(0.1, 0.3, size=(K, K))
-        diam = 1.0 + 0.2 * np.arange(K)
-        self.diameters = {k + 1: float(diam[k]) for k in range(K)}
-        self.masses = {k + 1: 1.0 + 0.5 * k for k in range(K)}
+        A["rcut_mat"] = self.Lmin * rng.uniform(0.3, 0.45, size=(KP, KP))
+        A["s2sig"] = rng.uniform(0.1, 0.3, size=(KP, KP))
+        diam = 1.0 + 0.2 * np.arange(KP)
+        self.diameters = {k + 1: float(diam[k]) for k in range(KP)}
+        self.masses = {k + 1: 1.0 + 0.5 * k for k in range(KP)}
+        self.radii = {k + 1: 0.4 + 0.1 * k for k in range(KP)}
+        if 0 in self.labels:
+            self.diameters[0], self.masses[0], self.radii[0] = 0.9, 0.8, 0.35
         A["pcsig"] = (diam[:, None] + diam[None, :]) / 2.0
-        e = rng.uniform(0.5, 1.5, size=(K, K))
+        e = rng.uniform(0.5, 1.5, size=(KP, KP))
         A["heps"] = (e + e.T) / 2.0
-        s = rng.uniform(0.9, 1.1, size=(K, K))
+        s = rng.uniform(0.9, 1.1, size=(KP, KP))
         A["hsig"] = (s + s.T) / 2.0
         A["hrc"] = np.minimum(2.0 * A["hsig"], 0.45 * self.Lmin)
         A["hsig_hz"] = np.minimum(A["hsig"], 0.45 * self.Lmin)
@@ -334,6 +435,20 @@ class World:
         A["grpos"] = rng.uniform(0.2, 2.0, size=12)
         A["grbins"] = (np.arange(12) + 0.5) * 0.05
         self.A = A
+        # inputs of the small utilities (own generator: the main stream above stays what it was)
+        r2 = np.random.default_rng([int(seed), 4242, d, N])
+        A["filC_odd"] = np.exp(-np.arange(9) * 0.25) * np.cos(np.arange(9) * 0.5)
+        A["filT_odd"] = np.arange(9) * 0.01
+        A["fitx"] = np.linspace(0.5, 3.0, 12)
+        A["fity"] = 2.0 * np.exp(-0.7 * A["fitx"]) + 0.01 * r2.normal(size=12)
+        A["moi"] = r2.normal(size=(N, 3))
+        A["square"] = np.array([[0.0, 0.0], [1.0, 0.0], [1.0, 1.0], [0.0, 1.0]]) + r2.uniform(-0.05, 0.05, size=(4, 2))
+        A["inside"] = np.array([0.5, 0.5]) + r2.uniform(-0.2, 0.2, size=2)
+        A["direction"] = r2.normal(size=2)
+        A["dist"] = r2.uniform(0.0, 3.0, size=9)
+        A["rji"] = r2.normal(size=d)
+        self.angles = [(float(a), float(b)) for a, b in zip(r2.uniform(0.05, 3.0, size=3), r2.uniform(-3.0, 3.0, size=3))]
+        self.dudrs = [float(x) for x in r2.normal(size=3)]
 
         # ---- synthetic neighbour / weight files (own writer)
         nb_frames = []
@@ -351,11 +466,42 @@ class World:
                 nl.append(f"{i + 1} {cn} " + " ".join(str(int(j) + 1) for j in nei) + "\n")
                 wl.append(f"{i + 1} {cn} " + " ".join(f"{x:.6f}" for x in wts) + "\n")
             nb_frames.append(rows)
-        self.files = {"neigh": os.path.join(root, "in_neighbors.dat"), "weights": os.path.join(root, "in_weights.dat")}
+        self.files = {"neigh": os.path.join(root, "in_neighbors.dat"), "weights": os.path.join(root, "in_weights.dat"),
+                      "voroindex": os.path.join(root, "in_voroindex.dat")}
         with open(self.files["neigh"], "w", encoding="utf-8") as f:
             f.write("".join(nl))
         with open(self.files["weights"], "w", encoding="utf-8") as f:
             f.write("".join(wl))
+        # synthetic Voronoi-index table in the format cal_voro writes: id followed by the face counts <n0 n1 ... n7>
+        r3 = np.random.default_rng([int(seed), 555, N, T])
+        with open(self.files["voroindex"], "w", encoding="utf-8") as f:
+            f.write("id   voro_index   0_to_7_faces\n")
+            for k in range(T * N):
+                f.write(f"{k % N + 1} 0 0 0 " + " ".join(str(int(x)) for x in r3.integers(0, 4, size=4)) + " 0\n")
+        # a LAMMPS dump of the wrapped trajectory (own writer; orthogonal header, columns id type x.. vx.. order) and a log
+        self.files["dump"] = os.path.join(root, "in_dump.atom")
+        self.files["log"] = os.path.join(root, "in_log.lammps")
+        hi = lo + L
+        with open(self.files["dump"], "w", encoding="utf-8") as f:
+            for k in range(T):
+                f.write(f"ITEM: TIMESTEP\n{self.timesteps[k]}\nITEM: NUMBER OF ATOMS\n{N}\nITEM: BOX BOUNDS pp pp pp\n")
+                for a in range(3):
+                    f.write(f"{lo[a]:.6f} {hi[a]:.6f}\n" if a < d else "-0.500000 0.500000\n")
+                f.write("ITEM: ATOMS id type " + " ".join("xyz"[:d]) + " " + " ".join("v" + c for c in "xyz"[:d]) + " order\n")
+                for i in r3.permutation(N):
+                    f.write(f"{i + 1} {int(frame_types[k][i])} " + " ".join(f"{x:.6f}" for x in xw[k][i]) + " "
+                            + " ".join(f"{x:.6f}" for x in A["vec"][k, i]) + f" {A['scalar'][k, i]:.6f}\n")
+        with open(self.files["log"], "w", encoding="utf-8") as f:
+            f.write("LAMMPS (synthetic)\nunits lj\n")
+            for sec in range(2):
+                f.write("Per MPI rank memory allocation\nStep Temp PotEng Press\n")
+                for k in range(3 + sec):
+                    f.write(f"{k * 100} " + " ".join(f"{x:.5f}" for x in r3.normal(size=3)) + "\n")
+                f.write("Loop time of 1.0 on 1 procs\n\n")
+        self.moltypes = {int(self.labels[-1]): 1}
+        if K >= 3:
+            self.moltypes[int(self.labels[0])] = 2
+        self.columnsids = [d + 3 + a for a in range(d)]
         cnl = np.zeros((N, 5), dtype=np.int32)
         for i, nei in enumerate(nb_frames[0]):
             cnl[i, 0] = len(nei)
@@ -380,7 +526,19 @@ class World:
 
         self.pristine = self._freeze_all()
         self.pristine_files = {k: open(p, "rb").read() for k, p in self.files.items()}
-        self.pristine_dicts = {"masses": dict(self.masses), "diameters": dict(self.diameters)}
+        self.pristine_dicts = {"masses": dict(self.masses), "diameters": dict(self.diameters), "radii": dict(self.radii),
+                               "moltypes": dict(self.moltypes), "columnsids": list(self.columnsids)}
+        # Dynamics.sq4 with a condition: the selected AND mobile subset must be non-empty in every origin frame as well
+        self.sq4_ok_cond = []
+        for cal in self.sq4_ok:
+            good = True
+            for n in range(T - 1):
+                dr2 = np.square(xu[n + 1] - xu[n]).sum(axis=1)
+                sel = dr2 < cuts if cal == "slow" else dr2 > cuts
+                if (sel & mask[n]).sum() < 1:
+                    good = False
+            if good:
+                self.sq4_ok_cond.append(cal)
 
     # ------------------------------------------------------------------ same values in other objects / other values in the same objects
     def rebuild(self):
@@ -389,7 +547,15 @@ class World:
         from PyMatterSim.reader.reader_utils import SingleSnapshot, Snapshots
 
         def cp(x):
-            return None if x is None else np.array(x, copy=True)
+            if x is None:
+                return None
+            if isinstance(x, np.ndarray) and x.ndim == 2 and not x.flags.c_contiguous and not x.flags.f_contiguous:
+                wide = np.zeros((x.shape[0], 2 * x.shape[1]), dtype=x.dtype)  # keep the memory layout of the variant
+                wide[:, 1::2] = -1
+                view = wide[:, ::2]
+                view[...] = x
+                return view
+            return np.array(x, copy=True)
         for name, snaps in list(self.snaps.items()):
             sn = [SingleSnapshot(timestep=s.timestep, nparticle=s.nparticle, particle_type=cp(s.particle_type),
                                  positions=cp(s.positions), boxlength=cp(s.boxlength), boxbounds=cp(s.boxbounds),
@@ -398,8 +564,11 @@ class World:
         self.A = {k: np.array(v, copy=True) for k, v in self.A.items()}
         self.masses = dict(self.masses)
         self.diameters = dict(self.diameters)
+        self.radii = dict(self.radii)
+        self.moltypes = dict(self.moltypes)
+        self.columnsids = list(self.columnsids)
 
-    _SCALARS = ("pristine", "pristine_files", "L", "H", "lo", "Lmin", "sq4_ok")
+    _SCALARS = ("pristine", "pristine_files", "L", "H", "lo", "Lmin", "sq4_ok", "sq4_ok_cond", "angles", "dudrs")
 
     def mutate_to(self, other):
         """Overwrite the contents of every array object (and input file) of this world IN PLACE with those of `other`
@@ -491,9 +660,12 @@ class World:
             with open(p, "rb") as f:
                 if f.read() != self.pristine_files[k]:
                     raise Violation(f"after {after}: input file {k} was modified")
-        if self.masses != self.pristine_dicts["masses"] or self.diameters != self.pristine_dicts["diameters"]:
-            raise Violation(f"after {after}: a dict argument (masses / diameters) was modified")
+        for name, want in self.pristine_dicts.items():
+            if getattr(self, name) != want or type(getattr(self, name)) is not type(want):
+                raise Violation(f"after {after}: the {type(want).__name__} argument {name!r} was modified: {want!r:.80} -> "
+                                f"{getattr(self, name)!r:.80}")
 
     def describe(self):
         return {"d": self.d, "N": self.N, "T": self.T, "K": self.K, "origin": self.origin, "cell": self.cellkind,
+                "variant": self.variant, "labels": list(self.labels),
                 "L": self.L.tolist(), "lo": self.lo.tolist()}
